@@ -1,14 +1,123 @@
-"""C01 - Earley accepts exactly the language of the grammar."""
-from vfw import corpus
+"""C01 - Earley accepts exactly the language of the grammar.
+
+ tok (CrossHair): symbolic token-kind sequences (lazily realised) through earley.Parser via the custom-lexer interface; accept <=> member.
+ txt (CrossHair): class-strings through xearley (dynamic, dynamic_complete); accept <=> member of the scannerless reference language
+     (regular languages for dynamic_complete, longest match per occurrence for dynamic, greedy ignores between tokens).
+ con (CrossHair): construction of a symbolic two-item rule template never hangs and raises GrammarError exactly for colliding
+     [..] expansions.
+"""
+from typing import List
+
+from vfw import hs, corpus
+from vfw.harness.planutil import tok_slices
 
 PROPERTY = 'C01'
+P = hs.params()
+
+ITEMS = ['A', 'B', '[A]', '[B]', 'A?', 'B?', '(A B)?', '[A B]']
+
+if P and P.get('kind') == 'con':
+    from lark import Lark
+    from lark.exceptions import GrammarError, UnexpectedInput
+    NI = len(ITEMS)
+
+
+def _alts_of(item):
+    """Alternatives of one item as sequences over symbols and the placeholder marker 'E' (maybe_placeholders on)."""
+    if item in ('A', 'B'):
+        return [(item,)]
+    if item.endswith('?'):
+        inner = tuple(item[:-1].strip('()').split())
+        return [inner, ()]
+    inner = tuple(item.strip('[]').split())
+    return [inner, ('E',) * len(inner)]
+
+
+def _con_oracle(i, j, k, mp):
+    """Can two different choices of the optional items yield the same non-empty symbol sequence? (the class of grammars for which
+    the property allows the documented GrammarError; it does not demand it - `A? A?` is accepted, `[A] [A]` is refused)"""
+    items = [ITEMS[i], ITEMS[j], ITEMS[k]]
+    seqs = []
+    for a in _alts_of(items[0]):
+        for b in _alts_of(items[1]):
+            for c in _alts_of(items[2]):
+                seqs.append(tuple(x for x in a + b + c if x != 'E'))
+    return any(s and seqs.count(s) > 1 for s in seqs)
+
+
+def _con_body(rec, i, j, k, mp):
+    i = hs.pick(i, 0, NI - 1)
+    j = hs.pick(j, 0, NI - 1)
+    k = hs.pick(k, 0, NI - 1)
+    mp = bool(mp)
+    g = 'start: %s %s %s\n%%declare A B\n' % (ITEMS[i], ITEMS[j], ITEMS[k])
+    err = None
+    # realised mode: the template indices are concrete here and grammar text cannot be symbolic through lark's own grammar lexer;
+    # construction under the tracer costs 8 s per grammar (measured), so it runs untraced; the solver owns the template enumeration
+    with hs.untraced():
+        with hs.watchdog(20):
+            try:
+                lk = Lark(g, parser='earley', lexer=hs.make_list_lexer(['A', 'B']), maybe_placeholders=mp)
+                lk.parse([])
+            except GrammarError as e:
+                err = e
+            except UnexpectedInput:
+                pass
+        rec['key'] = [g, mp]
+        rec['nontrivial'] = True
+        may = _con_oracle(i, j, k, mp)
+        rec['count'] = {'grammars': 1, 'grammar_errors': int(err is not None), 'collision_class': int(may)}
+        if err is not None and not (may and 'Rules defined twice' in str(err)):
+            return hs.fail(rec, 'construction failed outside the documented class (colliding expansions of optional items)',
+                           grammar=g, maybe_placeholders=mp, err=str(err)[:200])
+    return True
+
+
+def con(i: int, j: int, k: int, mp: bool) -> bool:
+    """
+    pre: 0 <= i < NI and 0 <= j < NI and 0 <= k < NI
+    post: _
+    """
+    return hs.run_path(_con_body, (i, j, k, mp), corner=lambda i, j, k, mp: j == NI - 1 and k == NI - 1 and mp)
+
+
+TXT_GRAMMARS = ['lines', 'nlvia', 'dotall', 'collide', 'letx', 'nulltxt', 'prefalt', 'kw']
+TXT_K = {'lines': 8, 'nlvia': 8, 'dotall': 7, 'collide': 5, 'letx': 9, 'nulltxt': 6, 'prefalt': 4, 'kw': 14}
 
 
 def plan(tier, seed):
-    L = 4 if tier == 'quick' else 6
+    quick = tier == 'quick'
+    L = 4 if quick else 6
+    budget = 60 if quick else 900
     slices = []
-    for name in corpus.tok_names():
-        slices.append({'id': 'tok:%s:L%d' % (name, L), 'module': 'vfw.harness.tok',
-                       'params': {'g': name, 'parser': 'earley', 'L': L, 'asserts': ['member']},
-                       'timeout': 100 if tier == 'quick' else 900, 'bound': {'tokens': L}})
-    return {'slices': slices, 'meta': {'rule': 'x'}}
+    for name in corpus.TOK:
+        slices += tok_slices('tok', name, 'earley', L, ['member'], 0.35, budget)
+    Lt = 3 if quick else 4
+    for g in TXT_GRAMMARS:
+        k = TXT_K[g]
+        if k > 9 and quick:
+            continue
+        for lexer in ('dynamic', 'dynamic_complete'):
+            npaths = sum(k ** n for n in range(Lt + 1))
+            cost = 0.3
+            pins = [None] if npaths * cost <= budget else list(range(k))
+            for pin in pins:
+                est = (npaths if pin is None else npaths / k) * cost
+                slices.append({'id': 'txt:%s:%s:L%d%s' % (g, lexer, Lt, '' if pin is None else ':pin%d' % pin), 'module': 'vfw.harness.txt',
+                               'params': {'g': g, 'parser': 'earley', 'lexer': lexer, 'L': Lt, 'asserts': ['member'], 'pin': pin},
+                               'timeout': int(est * 2.5 + 40), 'twin': pin in (None, k - 1), 'bound': {'chars': Lt, 'classes': k}})
+    slices.append({'id': 'con:template', 'func': 'con', 'params': {'kind': 'con'}, 'timeout': 300, 'mode': 'realised',
+                   'bound': {'grammars': 2 * len(ITEMS) ** 3}})
+    meta = {
+        'rule': 'tok: one path per viable token prefix + one rejecting extension; txt: one path per class-string; con: one path per template grammar; '
+                'non-trivial = non-empty input / every template grammar',
+        'technique': 'CrossHair symbolic execution of the real Earley parsers vs. a least-fixpoint reference recogniser',
+        'functions_encoded': ['lark.parsers.earley.Parser.parse/_parse/predict_and_complete/scan', 'lark.parsers.xearley.Parser._parse/scan',
+                              'lark.parsers.earley_common.Item', 'lark.parsers.grammar_analysis.GrammarAnalyzer', 'lark.parser_frontends.EarleyRegexpMatcher',
+                              'lark.load_grammar (construction, EBNF_to_BNF, duplicate-rule detection)'],
+        'bounds': {'tokens': L, 'chars': Lt, 'token_grammars': len(corpus.TOK), 'text_grammars': len(TXT_GRAMMARS), 'construction_template': 2 * len(ITEMS) ** 3},
+        'outside_bounds': ['longer inputs', 'grammars outside the corpus', 'regexps with look-around/back-references', 'regex module',
+                           'lexer=basic at text level is decided at token level here and at text level in C07'],
+        'stubs_and_assumes': ['ignored terminals are lexed greedily (re.match) between tokens', 'alphabet partition argument (DESIGN 2.3)'],
+    }
+    return {'slices': slices, 'meta': meta}
